@@ -175,6 +175,9 @@ type c16Adapter struct {
 	ch      chan cla.ConvergenceStatus
 	h       *c16Harness
 	started bool // last Start succeeded and Close was not called since (guarded by h.mu)
+	// overlap scenarios: Close announces itself on closeEntered and waits for closeGate before it returns
+	closeEntered chan struct{}
+	closeGate    chan struct{}
 }
 
 type c16Harness struct {
@@ -208,7 +211,13 @@ func (a *c16Adapter) Close() error {
 		a.h.bad = fmt.Sprintf("Close called on adapter %v that is not started (closed twice or never started)", a)
 	}
 	a.started = false
+	gate, entered := a.closeGate, a.closeEntered
+	a.closeGate, a.closeEntered = nil, nil
 	a.h.mu.Unlock()
+	if gate != nil {
+		close(entered)
+		<-gate
+	}
 	return nil
 }
 func (a *c16Adapter) Channel() chan cla.ConvergenceStatus { return a.ch }
@@ -222,6 +231,9 @@ func (a *c16Adapter) String() string                      { return fmt.Sprintf("
 type c16Task struct {
 	Cfg    c16Config  `json:"cfg"`
 	Events []c16Event `json:"events"`
+	// Overlap names a scenario in which an event arrives while the manager is inside a call into an adapter or
+	// while another status of the same adapter is still in flight (see c16Overlap).
+	Overlap string `json:"overlap,omitempty"`
 }
 
 type c16Result struct {
@@ -387,6 +399,9 @@ func c16Replay(t c16Task) (res c16Result) {
 
 func c16Worker(task []byte) []byte {
 	var t c16Task
+	if err := json.Unmarshal(task, &t); err == nil && t.Overlap != "" {
+		return mustJSON(c16Overlap(t))
+	}
 	if err := json.Unmarshal(task, &t); err != nil {
 		return mustJSON(c16Result{Key: "C16/harness", Desc: err.Error()})
 	}
@@ -435,7 +450,7 @@ func runC16(r *ev.Run, thorough bool) int {
 					}
 					transitions++
 					tr := append(append([]c16Event(nil), n.trace...), e)
-					tasks = append(tasks, c16Task{cfg, tr})
+					tasks = append(tasks, c16Task{Cfg: cfg, Events: tr})
 					if k := key(m2); !seen[k] {
 						seen[k] = true
 						states[k] = true
@@ -447,7 +462,7 @@ func runC16(r *ev.Run, thorough bool) int {
 			var rec func(m c16Model, tr []c16Event)
 			rec = func(m c16Model, tr []c16Event) {
 				if len(tr) == depth {
-					tasks = append(tasks, c16Task{cfg, append([]c16Event(nil), tr...)})
+					tasks = append(tasks, c16Task{Cfg: cfg, Events: append([]c16Event(nil), tr...)})
 					return
 				}
 				leaf := true
@@ -470,10 +485,15 @@ func runC16(r *ev.Run, thorough bool) int {
 					rec(m2, append(tr, e))
 				}
 				if leaf && len(tr) > 0 {
-					tasks = append(tasks, c16Task{cfg, append([]c16Event(nil), tr...)})
+					tasks = append(tasks, c16Task{Cfg: cfg, Events: append([]c16Event(nil), tr...)})
 				}
 			}
 			rec(c16Model{}, nil)
+		}
+	}
+	for _, perm := range []bool{false, true} {
+		for _, ov := range c16Overlaps {
+			tasks = append(tasks, c16Task{Cfg: c16Config{perm, 2}, Overlap: ov})
 		}
 	}
 	raw := make([][]byte, len(tasks))
@@ -524,7 +544,7 @@ func runC16(r *ev.Run, thorough bool) int {
 		"traces_validated_against_impl": validated,
 		"evaluations":                   len(tasks),
 		"distinct_nontrivial":           len(outcomes),
-		"rule":                          fmt.Sprintf("reference state machine (registered instance, active, retry budget, closed) explored by BFS to its fixpoint for permanent/non-permanent adapters and initial budgets 0..3 (one trace per transition), plus every enabled event sequence up to depth %d without state merging; every trace is replayed step by step on a fresh real cla.Manager with scripted adapters under the virtual clock; after each step Sender()/Receiver() and the Start/Close call log are compared with the reference", depth),
+		"rule":                          fmt.Sprintf("reference state machine (registered instance, active, retry budget, closed) explored by BFS to its fixpoint for permanent/non-permanent adapters and initial budgets 0..3 (one trace per transition), plus every enabled event sequence up to depth %d without state merging; every trace is replayed step by step on a fresh real cla.Manager with scripted adapters under the virtual clock; after each step Sender()/Receiver() and the Start/Close call log are compared with the reference; plus %d overlap scenarios (a retry tick while the manager is inside an adapter's Close, a peer-disappeared status followed at once by another status of the same adapter, the same followed by Close) in which the harness decides when the call into the adapter returns", depth, 2*len(c16Overlaps)),
 	}, []string{"events after Close are not explored (the statement does not define them)", "retry ticks are delivered by advancing the virtual clock through the manager's real ticker; quiescence by a marker message through the manager's own channel"})
 }
 
@@ -563,4 +583,187 @@ func replayC16(kind string, c json.RawMessage) (string, bool) {
 		failed, desc = res.Key != "", res.Key+": "+res.Desc+" | "+res.Obs
 	})
 	return desc, failed
+}
+
+// ---- events overlapping a call into an adapter / a status burst ----
+
+// (Two API calls for one adapter running concurrently in two caller goroutines - e.g. Restart while Unregister is
+// inside the adapter's Close - are outside the property's quantifier, which ranges over sequences; the retry tick
+// and the adapters' status messages are asynchronous to the caller by nature and are what is overlapped here.)
+var c16Overlaps = []string{"tick-during-close", "status-burst", "status-burst-then-close"}
+
+// c16Overlap runs one overlap scenario on a fresh real Manager. The adapters are the manager's environment: the
+// harness decides when a call into one returns, which is how another event is placed inside that call.
+func c16Overlap(t c16Task) (res c16Result) {
+	vtime.SetVirtual(vtime.Epoch)
+	h := &c16Harness{}
+	a := &c16Adapter{inst: 0, perm: t.Cfg.Perm, ch: make(chan cla.ConvergenceStatus), h: h}
+	mgr := cla.NewManager()
+	mgr.VerifSetQueueTtl(int32(t.Cfg.Budget))
+	if !withWatchdog(func() {
+		for vtime.PendingTimers() == 0 {
+			runtime.Gosched()
+		}
+	}) {
+		return c16Result{Key: "C16/harness-no-ticker", Desc: "manager did not arm its retry ticker"}
+	}
+	// drain what the manager forwards
+	var fmu sync.Mutex
+	forwarded := map[cla.ConvergenceMessageType]int{}
+	stopDrain := make(chan struct{})
+	defer close(stopDrain)
+	go func() {
+		for {
+			select {
+			case cs := <-mgr.Channel():
+				fmu.Lock()
+				forwarded[cs.MessageType]++
+				fmu.Unlock()
+			case <-stopDrain:
+				return
+			}
+		}
+	}()
+	nForwarded := func(mt cla.ConvergenceMessageType) int { fmu.Lock(); defer fmu.Unlock(); return forwarded[mt] }
+	flush := func() bool {
+		before := nForwarded(99)
+		return withWatchdog(func() {
+			mgr.VerifInject(cla.ConvergenceStatus{MessageType: 99})
+			for nForwarded(99) == before {
+				time.Sleep(50 * time.Microsecond)
+			}
+		})
+	}
+	fail := func(key, desc string) c16Result { return c16Result{Key: key, Desc: t.Overlap + ": " + desc} }
+	h.nextOut = 0
+	if !withWatchdog(func() { mgr.Register(a) }) || !flush() {
+		return fail("C16/deadlock:register", "Register did not return")
+	}
+	calls := func() (starts, closes int) {
+		h.mu.Lock()
+		defer h.mu.Unlock()
+		for _, c := range h.log {
+			if c.What == "start" {
+				starts++
+			} else {
+				closes++
+			}
+		}
+		return
+	}
+	listed := func() int { return len(mgr.Sender()) + len(mgr.Receiver()) }
+	wantStarts, wantCloses, wantListed := 1, 0, 2
+	switch t.Overlap {
+	case "tick-during-close", "restart-during-close":
+		gate, entered := make(chan struct{}), make(chan struct{})
+		h.mu.Lock()
+		a.closeGate, a.closeEntered = gate, entered
+		h.mu.Unlock()
+		unregDone := make(chan struct{})
+		go func() { mgr.Unregister(a); close(unregDone) }()
+		if !withWatchdog(func() { <-entered }) {
+			return fail("C16/deadlock:unregister", "Unregister never called the adapter's Close")
+		}
+		// the adapter is inside Close now
+		if t.Overlap == "tick-during-close" {
+			if !withWatchdog(func() { vtime.Advance(10 * time.Second) }) {
+				return fail("C16/deadlock:tick", "the manager did not take the retry tick while an adapter was closing")
+			}
+		} else {
+			go mgr.Restart(a)
+		}
+		time.Sleep(30 * time.Millisecond) // scheduling aid only: lets the manager act on the event before Close returns
+		close(gate)
+		if !withWatchdog(func() { <-unregDone }) {
+			return fail("C16/deadlock:unregister", "Unregister did not return after the adapter's Close returned")
+		}
+		if t.Overlap == "restart-during-close" {
+			// Restart = Unregister + Register: the adapter ends registered and started again, exactly one instance
+			waitFor(func() bool { s, _ := calls(); return s >= 2 })
+			if !flush() {
+				return fail("C16/deadlock:restart", "the manager stopped processing after a Restart overlapping an Unregister")
+			}
+			s, c := calls()
+			if s-c != listed()/2 || s-c < 0 || s-c > 1 {
+				return fail("C16/listed-active-but-not-started", fmt.Sprintf("after Unregister overlapped by Restart: %d starts, %d closes, %d list entries", s, c, listed()))
+			}
+			wantStarts, wantCloses, wantListed = s, c, listed()
+			break
+		}
+		if !flush() {
+			return fail("C16/deadlock:tick", "the manager stopped processing after a retry tick overlapping an Unregister")
+		}
+		wantStarts, wantCloses, wantListed = 1, 1, 0
+		// a later tick must not revive the unregistered adapter
+		if !withWatchdog(func() { vtime.Advance(10 * time.Second) }) || !flush() {
+			return fail("C16/deadlock:tick", "retry tick after the overlap did not complete")
+		}
+	case "status-burst", "status-burst-then-close":
+		// two status messages of one adapter back to back: its peer disappeared (the manager restarts the adapter)
+		// and a further message right behind it
+		burstDone := make(chan struct{})
+		go func() {
+			a.ch <- cla.NewConvergencePeerDisappeared(a, a.GetPeerEndpointID())
+			a.ch <- cla.ConvergenceStatus{Sender: a, MessageType: 98}
+			close(burstDone)
+		}()
+		if t.Overlap == "status-burst-then-close" {
+			withWatchdog(func() {
+				for nForwarded(cla.PeerDisappeared) == 0 {
+					time.Sleep(50 * time.Microsecond)
+				}
+			})
+			break // the final Close below must still return and stop the adapter
+		}
+		if !withWatchdog(func() {
+			for nForwarded(cla.PeerDisappeared) == 0 {
+				time.Sleep(50 * time.Microsecond)
+			}
+		}) {
+			return fail("C16/deadlock:peerdis", "a peer-disappeared status followed at once by another status of the same adapter was never forwarded")
+		}
+		if !flush() {
+			return fail("C16/deadlock:peerdis", "the manager stopped processing after a status burst of one adapter (restart in progress while the adapter's next status was in flight)")
+		}
+		// the second message may legitimately be dropped with the old supervising goroutine; the restart must be complete
+		wantStarts, wantCloses, wantListed = 2, 1, 2
+		select {
+		case <-burstDone:
+		default:
+			// the adapter's second send is still blocked: nobody listens to the restarted adapter's channel
+			if !withWatchdog(func() { <-burstDone }) {
+				return fail("C16/status-of-restarted-adapter-not-taken", "after the restart nobody receives from the adapter's status channel")
+			}
+		}
+	}
+	if t.Overlap != "status-burst-then-close" {
+		s, c := calls()
+		if s != wantStarts || c != wantCloses || listed() != wantListed {
+			key := "C16/start-close-calls:overlap"
+			if listed() != wantListed {
+				key = "C16/listed-active-but-not-started"
+				if listed() < wantListed {
+					key = "C16/started-but-not-listed"
+				}
+			}
+			return fail(key, fmt.Sprintf("adapter calls: %d starts %d closes, %d list entries; expected %d / %d / %d", s, c, listed(), wantStarts, wantCloses, wantListed))
+		}
+	}
+	if !withWatchdog(func() { _ = mgr.Close() }) {
+		return fail("C16/deadlock:final-close", "Manager.Close did not return")
+	}
+	h.mu.Lock()
+	bad, running := h.bad, a.started
+	h.mu.Unlock()
+	if bad != "" {
+		return fail("C16/adapter-protocol", bad)
+	}
+	if running {
+		s, c := calls()
+		return fail("C16/close-leaves-adapter-running", fmt.Sprintf("after Manager.Close the adapter is still running (%d starts, %d closes)", s, c))
+	}
+	s, c := calls()
+	res.Obs = fmt.Sprintf("%s: starts=%d closes=%d", t.Overlap, s, c)
+	res.State = t.Overlap
+	return
 }
